@@ -4,7 +4,7 @@
    step of the executor goroutine), what the scripted scheduler / the
    instrumented executor / the fake clock saw in that step, and the
    client's private fields afterwards (verif hook).  The monitor below
-   walks the outputs in order with a small ghost state of its own; the five
+   walks the outputs in order with a small ghost state of its own; the six
    checks are evaluated at every output.  The same functions are (a) proved
    to return "" on every trace of the model (Proofs.v) and (b) evaluated by
    Corr.v on the traces recorded from the Go implementation. *)
@@ -46,11 +46,15 @@ Record mon := mkMon {
   m_owes : bool;               (* a non-OK completion was reported; readiness not re-checked since *)
   m_synced : bool;             (* this Run has reached Synchronize *)
   m_ready : bool;              (* this Run has checked readiness successfully *)
-  m_shut : bool }.             (* shutdown began in an earlier event (a cancelled context stays cancelled) *)
+  m_shut : bool;               (* shutdown began in an earlier event (a cancelled context stays cancelled) *)
+  m_closed : bool;             (* the update channel of the executor in m_cur has been closed (after its Completed) *)
+  m_upd : bool;                (* this Run's select was ended by an update (or the close), not by the timer *)
+  m_slot : bool }.             (* the client held an execution slot when the previous Run returned (snapshot) *)
 
-Definition mon_init : mon := mkMon None None false false false false.
+Definition mon_init : mon := mkMon None None false false false false false false false.
 
-Definition item_begin (m : mon) : mon := mkMon (m_live m) (m_cur m) (m_owes m) false false (m_shut m).
+Definition item_begin (m : mon) : mon :=
+  mkMon (m_live m) (m_cur m) (m_owes m) false false (m_shut m) (m_closed m) false (m_slot m).
 
 (* Context of an output: the event it belongs to and the snapshot after it. *)
 Record ctx := mkCtx { k_ev : event; k_obs : obs }.
@@ -96,19 +100,36 @@ Definition add_em (oc : option cur) (st : stage) : option cur :=
 Definition is_failed (st : rstate) : bool :=
   match st with RExec _ (StDone false _) => true | _ => false end.
 
+Definition is_done_rep (st : rstate) : bool :=
+  match st with RExec _ (StDone _ _) => true | _ => false end.
+
+(* executing and not completed *)
+Definition is_executing (st : rstate) : bool :=
+  match st with
+  | RExec _ (StDone _ _) => false
+  | RExec _ _ => true
+  | RIdle => false
+  end.
+
+Definition is_xclosed (r : xres) : bool := match r with XClosed => true | _ => false end.
+
 Definition mon_next (c : ctx) (m : mon) (o : out) : mon :=
   match o with
   | OReady => mkMon (m_live m) (m_cur m) (if ctx_ready c then false else m_owes m) (m_synced m) (ctx_ready c) (m_shut m)
-  | OTimer _ _ => m
+                    (m_closed m) (m_upd m) (m_slot m)
+  | OTimer _ fired => mkMon (m_live m) (m_cur m) (m_owes m) (m_synced m) (m_ready m) (m_shut m)
+                            (m_closed m) (negb fired) (m_slot m)
   | OX e r =>
-    match emitted e r with
-    | Some st => mkMon (m_live m) (add_em (m_cur m) st) (m_owes m) (m_synced m) (m_ready m) (m_shut m)
-    | None => m
-    end
+    mkMon (m_live m) (match emitted e r with Some st => add_em (m_cur m) st | None => m_cur m end)
+          (m_owes m) (m_synced m) (m_ready m) (m_shut m)
+          (m_closed m || is_xclosed r) (m_upd m) (m_slot m)
   | OExit id => mkMon (if optN_eqb (m_live m) (Some id) then None else m_live m) (m_cur m) (m_owes m) (m_synced m) (m_ready m) (m_shut m)
+                      (m_closed m) (m_upd m) (m_slot m)
   | OCancel _ => m
   | OStart id d _ => mkMon (Some id) (Some (mkCur id d [])) false (m_synced m) (m_ready m) (m_shut m)
+                           false (m_upd m) (m_slot m)
   | OSync st _ _ => mkMon (m_live m) (m_cur m) (if is_failed st then true else m_owes m) true (m_ready m) (m_shut m)
+                          (m_closed m) (m_upd m) (m_slot m)
   | ORet _ e =>
     (* the Run is over: if shutdown began in it, it has begun for good *)
     let cu := match e with
@@ -116,6 +137,7 @@ Definition mon_next (c : ctx) (m : mon) (o : out) : mon :=
               | _ => m_cur m
               end in
     mkMon (m_live m) cu (m_owes m) (m_synced m) (m_ready m) (began c m)
+          (m_closed m) (m_upd m) (o_exec (k_obs c))
   end.
 
 (* ---- the five checks -------------------------------------------------------- *)
@@ -154,6 +176,26 @@ Definition chk_report_honest : chk := fun c m o =>
            | _ => "reports-state-not-emitted"
            end
     end
+  | _ => ""
+  end%string.
+
+(* completion_reported: "the completion of an action is reported with that
+   action's own response".  (a) If the executor's channel was closed before
+   the request of this Run was built - in an earlier event or while this Run
+   slept in its select, i.e. before this OSync in trace order - and the select
+   was ended by an update rather than by the timer (when the timer ends it the
+   code legitimately re-sends the last state), then the client has drained the
+   channel up to the close, so what it reports is that executor's Completed
+   (that it is this executor's own response is chk_report_honest).  (b) A
+   client that held no execution slot when the previous Run returned has
+   either been told to go idle or has drained its executor's channel to the
+   close: it never reports a non-completed executing state. *)
+Definition chk_completion : chk := fun c m o =>
+  match o with
+  | OSync st _ _ =>
+    if m_closed m && m_upd m && negb (is_done_rep st) then "completion-not-reported"
+    else if negb (m_slot m) && is_executing st then "reports-executing-after-executor-closed"
+    else ""
   | _ => ""
   end%string.
 
@@ -209,8 +251,9 @@ Definition cat2 (a b : string) : string := if is_empty a then b else a.
 Definition chk_all : chk := fun c m o =>
   cat2 (chk_one_executor c m o)
   (cat2 (chk_report_honest c m o)
+  (cat2 (chk_completion c m o)
   (cat2 (chk_idle_after_failure c m o)
-  (cat2 (chk_shutdown c m o) (chk_terminate c m o)))).
+  (cat2 (chk_shutdown c m o) (chk_terminate c m o))))).
 
 (* ---- running a check over a trace ------------------------------------------ *)
 
@@ -283,13 +326,6 @@ Record obm := mkObm {
 
 Definition obm_init (t0 : Z) : obm := mkObm t0 None false false false.
 Definition obm_begin (b : obm) : obm := mkObm (b_next b) (b_bound b) false false false.
-
-Definition is_executing (st : rstate) : bool :=
-  match st with
-  | RExec _ (StDone _ _) => false
-  | RExec _ _ => true
-  | RIdle => false
-  end.
 
 Definition ctx_reply (c : ctx) : option reply :=
   match k_ev c with ERun r => Some (r_reply r) | EExec _ => None end.
